@@ -13,6 +13,8 @@
     and query results (computed from listings and visits) are functions of the trace. *)
 From stdpp Require Import gmap strings list sorting.
 From MV Require Import IH5.Overlay IH5.OverlayProofs IH5.Client IH5.ClientProofs.
+From MV Require Import Bridge.PlainTree Bridge.PlainTreeProofs.
+From MV Require Toc.UserView.
 
 (** The child / attribute listing computed as [IH5InnerNode._children] does it (candidate
     keys of the containers above the creation index, newest-sighting walk per key, markers
@@ -94,3 +96,81 @@ Example C09_witness_adaptive :
   /\ length (state_m (after prep1 (ensure_client "i:7")) every 10) = 10
   /\ length (state_m (after prep1 (ensure_client "i:7")) never 10) = 1.
 Proof. exact witness_adaptive. Qed.
+
+(** ** The bridge to the container model family
+
+    The container theorems (C06, C07, C08, C15, C20) are proved over the plain tree of
+    [Toc/UserView.v] (association list keyed by forward paths, attribute lists inside the
+    objects; [u_step], [u_run]); the theorems above are stated over the plain tree of
+    [IH5/Overlay.v] (finite map keyed by reversed paths with flagged attribute segments;
+    [t_step], [run_t]).  [Bridge/PlainTree.v] defines the abstraction [abs] from the first to
+    the second, the translation [conv] of operations and the common fragment ([common]: the
+    group objects of the call exist, the IH5 deletion-marker value is not written as data, a
+    copy does not go strictly below its own source; [conv] is undefined for the two
+    ensure-style requests require_group / require_dataset).  The theorems below make
+    "what is proved over the plain tree holds for the IH5 driver by C09" precise. *)
+
+(** [abs] is faithful: reading [abs U] at a reversed flagged path is reading [U] at the forward
+    path it stands for (kind and value of the node, or the value of the attribute). *)
+Theorem C09_bridge_abs_lookup : forall (U : UserView.tree) (q : path), abs U !! q = look U q.
+Proof. exact abs_lookup. Qed.
+Print Assumptions C09_bridge_abs_lookup.
+
+(** One step of every operation kind of the common fragment (create_group with intermediate
+    groups, create dataset, delete, attribute set / delete, copy, move; successful or
+    refused): the specification tree of the overlay does to [abs U] exactly what the
+    association-list model does to [U], with the same result class. *)
+Theorem C09_bridge_step : forall (U : UserView.tree) (o : UserView.uop) (o' : op),
+  wf U -> common U o = true -> conv o = Some o' ->
+  t_step (abs U) o' = (abs (UserView.u_step U o).1, (UserView.u_step U o).2).
+Proof. exact bridge_step. Qed.
+Print Assumptions C09_bridge_step.
+
+(** Whole operation lists from the empty tree; the association-list tree stays well-formed. *)
+Theorem C09_bridge_run : forall ops : list UserView.uop,
+  common_run u_init ops = true ->
+  run_t (omap conv ops) = abs (UserView.u_run u_init ops) /\ wf (UserView.u_run u_init ops).
+Proof. exact bridge_run. Qed.
+Print Assumptions C09_bridge_run.
+
+(** Composition with C01: an IH5 history with patch boundaries at arbitrary positions whose
+    operations are those of [uops] shows [abs] of the association-list model's tree. *)
+Theorem C09_bridge_overlay_view : forall (mops : list op) (uops : list UserView.uop),
+  common_run u_init uops = true -> strip_bnd mops = omap conv uops ->
+  viewmap (run_m mops) = abs (UserView.u_run u_init uops) /\
+  forall p, vget (run_m mops) p = tget (abs (UserView.u_run u_init uops)) p.
+Proof. exact bridge_overlay_view. Qed.
+Print Assumptions C09_bridge_overlay_view.
+
+(** Composition with [C09_driver_view]: any client of the protocol (the container layer is
+    one), any boundary / reopen schedule: if the raw write requests it issued are the
+    operation list [uops] of the association-list model, the IH5 overlay view is [abs] of that
+    model's tree and every read request is answered from it. *)
+Theorem C09_bridge_driver_view :
+  forall (prog : client) (bs : nat -> bool) (n : nat) (uops : list UserView.uop),
+  common_run u_init uops = true -> strip_bnd (writes prog n) = omap conv uops ->
+  viewmap (state_m prog bs n) = abs (UserView.u_run u_init uops) /\
+  forall rq, read_m (state_m prog bs n) rq = read_t (abs (UserView.u_run u_init uops)) rq.
+Proof. exact bridge_driver_view. Qed.
+Print Assumptions C09_bridge_driver_view.
+
+(** Non-vacuity: a 12-step history through every operation kind (with group-object
+    receivers, attributes on the root, a group and a dataset, copy and move of groups with
+    attributes below, three refusals) lies in the common fragment; run with three patch
+    boundaries through the overlay (4 containers) it shows [abs] of the association-list
+    tree, which has 9 entries. *)
+Example C09_bridge_witness :
+  common_run u_init demo_uops = true /\
+  strip_bnd demo_mops = omap conv demo_uops /\
+  length (run_m demo_mops) = 4 /\
+  classes u_init demo_uops =
+    [true; true; true; true; true; true; true; true; true; false; false; false] /\
+  viewmap (run_m demo_mops) = abs (UserView.u_run u_init demo_uops) /\
+  map_to_list (abs (UserView.u_run u_init demo_uops)) =
+    [([(false, "a")], TGroup); ([(true, "m"); (false, "a")], TData "e:");
+     ([(false, "x"); (false, "a")], TData "i:1");
+     ([(true, "k"); (false, "x"); (false, "a")], TData "i:2");
+     ([(false, "c")], TGroup); ([(false, "d"); (false, "c")], TGroup);
+     ([(false, "b"); (false, "d"); (false, "c")], TGroup);
+     ([(false, "e")], TGroup); ([(true, "r")], TData "i:3")]%string.
+Proof. exact bridge_witness. Qed.
